@@ -148,7 +148,15 @@ def enumerate_mutations(path):
             muts.append(("index_columns", i))
             muts.append(("rename_index", i))
     muts.append(("add_table",))
+    muts.append(("add_table", "AaaVerifExtraTable"))
+    muts.append(("add_table", "zzzVerifExtraTable"))
     muts.append(("add_view",))
+    muts.append(("add_view", "AaaVerifExtraView"))
+    muts.append(("add_view", "zzzVerifExtraView"))
+    for t in sig["tables"]:
+        muts.append(("add_column_untyped", t))
+        muts.append(("add_unique_index", t))
+        muts.append(("pk_order", t))
     for t in sig["tables"]:
         muts.append(("add_index", t))
     con.close()
@@ -221,9 +229,30 @@ def apply_mutation(path, m):
             con.execute('DROP INDEX "%s"' % m[1])
             con.execute('CREATE %sINDEX "%s" ON "%s" ("%s")' % ("UNIQUE " if unique else "", m[1], t, others[0]))
         elif kind == "add_table":
-            con.execute("CREATE TABLE VerifExtraTable (a INTEGER, b TEXT)")
+            con.execute("CREATE TABLE %s (a INTEGER, b TEXT)" % (m[1] if len(m) > 1 else "VerifExtraTable"))
         elif kind == "add_view":
-            con.execute("CREATE VIEW VerifExtraView AS SELECT 1 AS one")
+            con.execute("CREATE VIEW %s AS SELECT 1 AS one" % (m[1] if len(m) > 1 else "VerifExtraView"))
+        elif kind == "add_column_untyped":
+            con.execute('ALTER TABLE "%s" ADD COLUMN verif_untyped_column' % m[1])
+        elif kind == "add_unique_index":
+            t = m[1]
+            col = before["tables"][t][-1][0]
+            con.execute('CREATE UNIQUE INDEX verif_extra_unique_%s ON "%s" ("%s")' % (t, t, col))
+        elif kind == "pk_order":
+            row = con.execute("SELECT sql FROM sqlite_master WHERE type='table' AND name=?", (m[1],)).fetchone()
+            mm = re.search(r"PRIMARY\s+KEY\s*\(([^)]*,[^)]*)\)", row[0], re.I)
+            if not mm:
+                return False, "not applicable"
+            cols = [c.strip() for c in mm.group(1).split(",")]
+            new_sql = row[0][:mm.start(1)] + " " + ", ".join(reversed(cols)) + " " + row[0][mm.end(1):]
+            con.execute("PRAGMA writable_schema=ON")
+            con.execute("UPDATE sqlite_master SET sql=? WHERE type='table' AND name=?", (new_sql, m[1]))
+            con.execute("PRAGMA writable_schema=OFF")
+            ver = con.execute("PRAGMA schema_version").fetchone()[0]
+            con.execute("PRAGMA schema_version=%d" % (ver + 1))
+            con.commit()
+            con.close()
+            con = sqlite3.connect(path)
         elif kind == "add_index":
             t = m[1]
             col = before["tables"][t][0][0]
@@ -287,7 +316,7 @@ def _confined(before, after, m):
             if v[0] != t and after["indexes"].get(i) != v:
                 return False
         return changed
-    if kind in ("drop_table", "rename_table", "add_column", "drop_column", "rename_column"):
+    if kind in ("drop_table", "rename_table", "add_column", "add_column_untyped", "drop_column", "rename_column", "pk_order"):
         t = m[1]
         for name in bt:
             if name != t and bt[name] != at.get(name):
@@ -295,7 +324,7 @@ def _confined(before, after, m):
         return True
     if kind in ("drop_view", "rename_view", "add_view"):
         return bt == at and before["indexes"] == after["indexes"]
-    if kind in ("drop_index", "rename_index", "index_uniqueness", "index_columns", "add_index"):
+    if kind in ("drop_index", "rename_index", "index_uniqueness", "index_columns", "add_index", "add_unique_index"):
         return bt == at and before["views"] == after["views"]
     if kind == "add_table":
         return all(bt[n] == at.get(n) for n in bt) and before["views"] == after["views"]
